@@ -8,9 +8,9 @@ CHECKS = {
          "Seeded search over schedules: the real Session runs over an in-memory transport under an executor the harness owns; every poll, spurious poll, send-progress step and reply delivery (in order or permuted) is a tape choice. Oracle over the history: message-ids distinct, every future resolves to the reply carrying its own unique tag, nothing delivered twice, no stuck task at quiescence, an unknown-id reply never becomes an Ok value.",
          "Trusted: the harness's own XML parser and executor; tokio::sync::Mutex (real, executor-agnostic). The three real transports are replaced by the in-memory Transport (they are exercised by C06/C07).",
          "deterministic simulation: seeded scheduler over real session futures, history oracle"),
- "C18": ("S-sim", "exploration", "DESIGN.md §5 C18",
-         "The C05 schedule space plus the action 'drop reply future j', enabled at every scheduler step for every future that lives in its own task (so at each of its suspension points) and 'drop without polling'; survivors must resolve to their own replies and a request issued afterwards must succeed.",
-         "Same trusted base as C05. Only reply futures are dropped, not rpc() calls in progress.",
+ "C18": ("S-sim + R-sim", "exploration", "DESIGN.md §5 C18",
+         "The C05 schedule space plus the action 'drop reply future j', enabled at every scheduler step for every future that lives in its own task (so at each of its suspension points) and 'drop without polling'; survivors must resolve to their own replies and a request issued afterwards must succeed. One run in 64 runs over the real TLS / SSH / local transports against the scripted peer: replies cut into chunks, the task awaiting one or two replies aborted between two chunks (inside the transport read if it is the reader).",
+         "Same trusted base as C05. Only reply futures are dropped, not rpc() calls in progress. On the real transports drops fall between two deliveries of the peer, not between two polls.",
          "deterministic simulation: seeded scheduler with cancellation injected at suspension points"),
  "C08": ("S-sim", "exploration", "DESIGN.md §5 C08",
          "Reply documents are generated from the NETCONF/Junos reply grammar (0-4 rpc-error elements of every type/tag/severity with optional children, positive indications, load-configuration-results with consistent or inconsistent load-error-count, in every order) and delivered through the real receive path to one request of each reply type among other outstanding requests. Oracle from the generated document: Ok implies no error-severity rpc-error and the operation's positive indication; Err(RpcError(list)) implies list == the document's rpc-errors in order.",
@@ -21,7 +21,7 @@ CHECKS = {
          "Trusted: the requirement table in props/c09.rs (edit-config to <startup/> is treated like the library does). load-configuration from a URL cannot be constructed through the public API and is not covered.",
          "deterministic simulation: capability-set x request matrix sampled through the real builders, wire-content oracle"),
  "C10": ("S-sim", "exploration", "DESIGN.md §5 C10",
-         "Every text-valued and fragment-valued parameter site of every operation (19 sites) is driven with adversarial values (XML metacharacters, quotes, ']]>', the delimiter itself, entity look-alikes, comment/CDATA/PI openers, non-ASCII, empty) and generated well-formed fragments. The fake server frames the byte stream by the delimiter like a real one and parses with the harness's strict XML parser: exactly one message per rpc(), well-formed, value read back unchanged, fragments equal as subtrees.",
+         "Every text-valued and fragment-valued parameter site of every operation (19 sites), alone or together with the other parameters of its operation (commit, commit-configuration, edit-config combinations), is driven with adversarial values (XML metacharacters, quotes, ']]>', the delimiter itself, entity look-alikes, comment/CDATA/PI openers, non-ASCII, empty) and generated well-formed fragments. The fake server frames the byte stream by the delimiter like a real one and parses with the harness's strict XML parser: exactly one message per rpc(), well-formed, value read back unchanged, fragments equal as subtrees.",
          "Decided by generated parameter values. The agent's own payloads (policy names, comments) are covered through A-sim in C01. Attribute-valued parameters are generated without tab/newline.",
          "deterministic simulation: adversarial parameter values through the real serialisers, strict server-side parse"),
  "C12": ("S-sim + R-sim(TLS)", "exploration", "DESIGN.md §5 C12",
@@ -33,7 +33,7 @@ CHECKS = {
          "Trusted: the harness serialiser (self-checked on every run: both serialisations must be the same document for the harness's own parser).",
          "deterministic simulation: metamorphic serialisation pairs through the real readers"),
  "C14": ("S-sim", "exploration", "DESIGN.md §5 C14",
-         "A session with 1-4 outstanding requests in separate tasks; the hello or one reply is replaced by a mutation of the valid message (16 mutation kinds incl. truncation at any offset, splices, byte flips, invalid UTF-8, huge numbers, 64 KiB / 4 MiB text, deep nesting, random bytes). Oracle: no panic, quiescence within the step budget, every other request still resolves to its own reply (at most one innocent reader may err), no poll hangs (watchdog). The same mutations are fed to the agent's two configuration readers.",
+         "A session with 1-4 outstanding requests in separate tasks; the hello or one reply is replaced by a mutation of the valid message (20 mutation kinds incl. truncation at any offset, splices, byte flips, invalid UTF-8, huge numbers, 64 KiB / 4 MiB text, deep nesting, random bytes, one leaf text or attribute value replaced by long ASCII + multi-byte text); the mutated reply answers one of six operations (get, lock, open-, close-, load-, commit-configuration) and starts from one of that operation's valid reply shapes or a complete rpc-error, so that every reply reader is reached. Oracle: no panic, quiescence within the step budget, every other request still resolves to its own reply (at most one innocent reader may err), no poll hangs (watchdog). The same mutations are fed to the agent's two configuration readers.",
          "Mutations that name another outstanding message-id are skipped. A non-returning poll is caught by a 20 s real-time watchdog (class spin).",
          "deterministic simulation: mutated server bytes with other requests outstanding, seeded delivery order"),
  "C01": ("A-sim", "exploration", "DESIGN.md §5 C01",
@@ -81,9 +81,9 @@ CHECKS = {
          "Job end is observed at the transport (refusal, first negative reply / EOF, positive close-session reply).",
          "deterministic simulation: virtual-time timelines with scripted outcomes and real signals"),
  "C20": ("R-sim", "exploration", "DESIGN.md §5 C20",
-         "Real SSH and TLS session establishment (success, rejected credentials, peer closes) under a capturing tracing subscriber with span new/close events, 8 filter directives, 8 passwords; the captured text of the repository's crates is searched for the secret in clear, Debug-escaped, hex, base64 and byte-list encodings (key: DER, private scalar and its halves, PEM lines).",
-         "The agent binary's start-up path is not executed in-process. Dependency log lines are scanned and reported as observations.",
-         "simulated connection attempts over real transports with full log capture and multi-encoding search"),
+         "Real SSH and TLS session establishment (success, rejected credentials, peer closes) under a capturing tracing subscriber with span new/close events, 8 filter directives, 8 passwords; the captured text of the repository's crates is searched for the secret in clear, Debug-escaped, hex, base64 and byte-list encodings (key: DER, private scalar and its halves, PEM lines). Three runs in seven start the agent executable (the repository's bin source) as a child process at -qq..-vvv against a closed port with a client key file that met one of 19 storage faults (torn write, lost / converted line ends, flipped bit, swapped files ...) and search everything it writes.",
+         "The agent executable's successful TLS path is exercised in-process only. Dependency log lines are scanned and reported as observations.",
+         "simulated connection attempts over real transports and of the agent executable with injected key-file storage faults, full log capture and multi-encoding search"),
 }
 
 def main():
